@@ -6,6 +6,7 @@ import re
 from ..index import unparse, iter_own_nodes, AnalysisError
 from ..cfg import calls_in_node
 from ..framework import stores_to_name, assigned_values
+from .. import exprs as X
 from . import common
 
 EXPLANATION = (
@@ -126,7 +127,7 @@ def rule_complete(chk):
             problems.append("a present first field is not rendered")
         # header reads the three
         rets = common.returns_of(fcfg)
-        hdr = " ".join(unparse(r.ast.value) for r in rets) + " " + " ".join(unparse(v) for v in assigned_values(f, "level") if v is not None)
+        hdr = " ".join(unparse(X.inline(f, r.ast.value)) for r in rets)
         for k, nm in ((UU, "TASK_UUID_FIELD"), (TL, "TASK_LEVEL_FIELD")):
             if "%s[%s]" % (fparam, nm) not in hdr:
                 problems.append("the header does not show %s" % k)
